@@ -30,7 +30,7 @@ def nondet_values(trace):
         if st.get('stepType') != 'assignment':
             continue
         lhs = st.get('lhs', '')
-        m = re.match(r'^verif_nd\[(\d+)l?\]$', lhs)
+        m = re.match(r'^verif_nd\[(\d+)l*\]$', lhs)
         v = st.get('value', {})
         if m:
             b = v.get('binary')
